@@ -319,6 +319,11 @@ func c19RunShadowCase(w *fw.W, sc c19ShadowCase, wr *c19Wrap, ks ...int) {
 // worker process).
 var c19CtlCache = map[string]c19Obs{}
 
+// c19LastReach is the reach class c19JudgeShadow found for the program it
+// judged last ("" when the judge stopped before classifying).  Family 8 reads it
+// to compare what a placement declares with what the evaluator did.
+var c19LastReach string
+
 // c19JudgeShadow evaluates control + real program, lints the real program in
 // the three modes and applies the property.
 func c19JudgeShadow(w *fw.W, fnd *c19Findings, sh c19Shape, target c19Fun, shadow c19Shadow, tmpl string, args []string, wrapLabel, keyExtra string) (violated bool) {
@@ -384,6 +389,7 @@ func c19JudgeShadow(w *fw.W, fnd *c19Findings, sh c19Shape, target c19Fun, shado
 		w.Count("bind_errors_located_off_target", 1)
 	}
 	w.Count("reach:"+class, 1)
+	c19LastReach = class
 	tsig := target.sig()
 
 	var lints []c19LintResult
@@ -470,6 +476,8 @@ func c19JudgeShadow(w *fw.W, fnd *c19Findings, sh c19Shape, target c19Fun, shado
 	w.SetAdd("shadow_shapes", sh.Name)
 	if reach := sh.Name + " -> " + strings.TrimSuffix(strings.TrimSuffix(class, "-bind-fail"), "-bound"); strings.Contains(sh.Name, ":then:") {
 		w.SetAdd("pkgmove_reach_by_movement", reach) // family 7 (a set of its own: sets over 60 members are truncated in the evidence)
+	} else if strings.Contains(sh.Name, "-placed:") {
+		// family 8 records the reach per kind itself (definition_placement_reach:*)
 	} else {
 		w.SetAdd("shadow_reach_by_shape", reach)
 	}
